@@ -387,6 +387,10 @@ func (fe *verifFE) isType(e ast.Expr) bool {
 		return fe.isType(v.X)
 	case *ast.StarExpr:
 		return fe.isType(v.X)
+	case *ast.IndexExpr: // instantiated generic type
+		return fe.isType(v.X)
+	case *ast.IndexListExpr:
+		return fe.isType(v.X)
 	case *ast.SelectorExpr:
 		if id, ok := v.X.(*ast.Ident); ok {
 			if ref, isPkg := fe.importRef(id.Name); isPkg {
@@ -466,9 +470,21 @@ func (fe *verifFE) expr1(e ast.Expr, two bool) {
 		fe.expr(v.X, false)
 		cb.Elem()
 	case *ast.IndexExpr:
+		if fe.isType(v.Index) { // f[T]: explicit (possibly partial) instantiation of a generic function
+			fe.expr(v.X, false)
+			cb.Typ(fe.typ(v.Index))
+			cb.Index(1, 0)
+			break
+		}
 		fe.expr(v.X, false)
 		fe.expr(v.Index, false)
 		cb.Index(1, lhs)
+	case *ast.IndexListExpr: // f[T1, T2]
+		fe.expr(v.X, false)
+		for _, x := range v.Indices {
+			cb.Typ(fe.typ(x))
+		}
+		cb.Index(len(v.Indices), 0)
 	case *ast.SliceExpr:
 		fe.expr(v.X, false)
 		for i, x := range []ast.Expr{v.Low, v.High, v.Max} {
